@@ -180,6 +180,9 @@ pub fn c15(case_seed: u64, acc: &mut Acc) {
         }
     }
     let tc = &tcs[0];
+    // the static iterator once BEFORE any dynamic iterator exists on this test (compared with
+    // the one taken after all the dynamic runs, below)
+    let static_before = static_stream(tc, seed, 200);
     // ---------------- (2) re-iterate
     let opts = RunOpts { max_steps: 200, probe_after_end: 1, stop_at_error: true, seed: Some(seed), continue_on: None };
     let solo = run_bound(tc, &case.signals, &case.script, &opts);
@@ -292,7 +295,15 @@ pub fn c15(case_seed: u64, acc: &mut Acc) {
         Err(p) => viol!(Finding::new(p.signature(), format!("static iteration panicked: {p:?}"))),
         Ok(s) => s,
     };
-    acc.evaluations += 1;
+    acc.evaluations += 2;
+    match (&static_before, &st) {
+        (Ok(a), b) if a != b => viol!(Finding::new(
+            "static-iteration-depends-on-history",
+            format!("try_iter_static before any dynamic iteration gave {:?}..., after them {:?}...", a.as_ref().map(|v| v.len()), b.as_ref().map(|v| v.len()))
+        )),
+        (Err(p), _) => viol!(Finding::new(p.signature(), format!("static iteration panicked: {p:?}"))),
+        _ => {}
+    }
     let mut static_expansion = false;
     match (&st, reads.is_empty()) {
         (Ok(_), false) => viol!(Finding::new("static-accepts-dynamic-test", format!("program reads {:?} but try_iter_static succeeded", reads))),
